@@ -4,7 +4,8 @@
     Invariant: [Dynamic3.GoodD] (well formed, outside a reordering context,
     empty oracle tape, exact counts; NO condition on [last_len]).
     Alphabet: [Dynamic3.allowedD] (decorated operations, counters, garbage
-    collection, [configure], declaration, threshold/trigger setters)
+    collection, [configure], declaration, threshold/trigger setters, the
+    assignment [bdd.max_nodes = n]: calls may fail on a full table anywhere)
     ∪ the explicit reorderings [OSwap], [OReorder], [OReorderPairs] with ANY
       arguments
     ∪ [OSetRoots], [OCopy], [OImage], [OPreimage] (guarded: any [last_len]),
@@ -53,10 +54,14 @@ Proof.
   nrf; first [apply nrf_level_of | apply nrf_decref | apply nrf_incref
              | apply nrf_swap_cofactor | apply nrf_find_or_add].
 Qed.
+Lemma nrf_child_level v : nrf (child_level v).
+Proof. unfold child_level. nrf. Qed.
+Lemma nrf_dep_count y X : nrf (dep_count y X).
+Proof. unfold dep_count. nrf; apply nrf_child_level. Qed.
 Lemma nrf_swap x y al : nrf (swap x y al).
 Proof.
   unfold swap.
-  nrf2; first [apply nrf_collect_garbage | apply nrf_levels | apply nrf_pop_order
+  nrf2; first [apply nrf_dep_count | apply nrf_collect_garbage | apply nrf_levels | apply nrf_pop_order
              | apply nrf_swap_collect | apply nrf_swap_up | apply nrf_swap_indep
              | apply nrf_swap_dep | apply nrf_var_at_level].
 Qed.
@@ -142,10 +147,20 @@ Proof.
     rewrite (bind_ok _ _ _ _ _ E'). unfold assert.
     rewrite bool_decide_eq_false_2 by (by intros ?). cbn [bind raise].
     intros [= <- <-]. by apply Hstay. }
-  assert (Hxy : x ≠ y) by (intros ->; congruence).
-  destruct (pair_body_spec L s al x y r s' HG Hal Hxy ltac:(by eexists) ltac:(by eexists) H)
-    as [->|(al'&->&HS1&Hal1&_&Hd1&_)]; [by left|right].
-  split_and!; [by apply (Stp_trans L s0 s s')|congruence|by intros ? [= <-]].
+  revert H. unfold pair_body. pose proof (Hlv x) as E. rewrite Ex in E.
+  rewrite (bind_ok _ _ _ _ _ E). pose proof (Hlv y) as E'. rewrite Ey in E'.
+  rewrite (bind_ok _ _ _ _ _ E'). unfold assert.
+  rewrite bool_decide_eq_true_2 by done. cbn [bind ret].
+  case_decide.
+  { intros [= <- <-]. apply Hstay. by intros al' [= <-]. }
+  destruct (if decide (jy < jx) then (jy, jx) else (jx, jy)) as [a b].
+  destruct (shift a (b - 1) al s) as [r1 s1] eqn:Esh.
+  destruct (shift_safe L s0 a (b - 1) al s r1 s1 HS Hal Hd Esh) as [->|(HS1&Hd1&Hal1)].
+  { rewrite (bind_err _ _ _ _ _ Esh). intros [= <- <-]. by left. }
+  destruct r1 as [[sz al1]|e].
+  - rewrite (bind_ok _ _ _ _ _ Esh). intros [= <- <-]. right. split_and!; try done.
+    intros al' [= <-]. by apply (Hal1 (sz, al1)).
+  - rewrite (bind_err _ _ _ _ _ Esh). intros [= <- <-]. right. split_and!; try done.
 Qed.
 
 Theorem reorder_to_pairs_safe pairs s L r s' :
@@ -235,17 +250,32 @@ Proof.
       - by apply (pres_swap x y None s r s').
       - pose proof (pres_swap x y None _ r s1 H0) as E. unfold rr in *. cbn in *. done. }
     destruct (swap_pub_correct s x y L r s' HI HC Hxy Hx Hy H)
-      as [?|(oldn&newn&al'&->&HI'&HC'&_&_&_&Hv&HD&Hll)]; [done|].
+      as [?|[(->&_&s1&Hgc&->)|(oldn&newn&al'&->&HI'&HC'&_&_&_&Hv&HD&Hll)]]; [done| |].
+    { (* refused by the full-table pre-check: only the collection happened *)
+      destruct (Gd_off L s HI HC) as (HI0&HC0&_).
+      destruct (collect_garbage_total None _ L (Ok tt) s1 HI0 HC0 Hgc)
+        as (HI1&HC1&Ev&El&Hf&Hsub&[(_&_&Hkeep)|(_&_&Hxx)]); [|by destruct Hxx].
+      split_and!; try done.
+      - apply (Inv_same s1); [by repeat split|done].
+      - intros u Hu. pose proof (held_valid L s u HI HC Hu) as Hvu.
+        assert (Hv1 : valid s1 u).
+        { split; [apply Hu|]. apply elem_of_dom, Hkeep.
+          destruct Hu as [_ [?|?]]; [by left|right].
+          apply reach_root; [done|]. apply elem_of_dom, Hvu. }
+        split_and!; try done. intros ρ.
+        transitivity (denv s1 u ρ); [unfold denv; by apply D_same|].
+        transitivity (denv (s <| last_len := None |>) u ρ); [|unfold denv; by apply D_same].
+        unfold denv. rewrite El. by apply D_shrink. }
     split_and!; try done.
     + intros u [Hu0 Hu]. by apply HD.
   - apply guarded_run in H as [[Hll H]|(ll&s1&Hll&H&->)].
-    + destruct (swap_junk_run x y s L r s' HI HC Hn H) as (->&HI'&HC'&Ev&El&(E1&E2&E3&E4)&Hk).
+    + destruct (swap_junk_run x y s L r s' HI HC Hn H) as (->&HI'&HC'&Ev&El&(E1&E2&E3&E4&E5)&Hk).
       split_and!; try done. unfold rr; congruence.
     + destruct (Gd_off L s HI HC) as (HI0&HC0&_).
-      destruct (swap_junk_run x y _ L r s1 HI0 HC0 Hn H) as (->&HI'&HC'&Ev&El&(E1&E2&E3&E4)&Hk).
+      destruct (swap_junk_run x y _ L r s1 HI0 HC0 Hn H) as (->&HI'&HC'&Ev&El&(E1&E2&E3&E4&E5)&Hk).
       split_and!; try done.
       * apply (Inv_same s1); [by repeat split|done].
-      * unfold rr. cbn. by rewrite E2, E3.
+      * unfold rr. cbn. by rewrite E2, E3, E5.
       * by apply (keepsH_ll L s None s1 (Some ll)).
 Qed.
 
@@ -458,7 +488,7 @@ Qed.
 Lemma safe_dout s (r : res value) s' :
   GoodD s → safe s s' → r ≠ Err ENeedsReordering → r ≠ Err EOracle → dout s r s'.
 Proof.
-  intros HG (HI'&He&(_&E1&_&E2)&HC) Hr1 Hr2. pose proof HG as (_&_&_&L&HL).
+  intros HG (HI'&He&(_&E1&_&E2&_)&HC) Hr1 Hr2. pose proof HG as (_&_&_&L&HL).
   apply dout_extends; try done. exists L. by apply HC.
 Qed.
 
@@ -486,10 +516,10 @@ Proof.
   destruct (nt_guarded m Hnt s r s' Ht H) as [Ht' Hno].
   pose proof (guarded_no_signal m s r s' Hn H) as Hns.
   apply guarded_run in H as [[Hll H]|(ll&s1&Hll&H&->)].
-  - destruct (Hs s r s' HI Hll H) as (HI'&He&(E1&E2&_&E4)&HC). by split_and!.
+  - destruct (Hs s r s' HI Hll H) as (HI'&He&(E1&E2&_&E4&_)&HC). by split_and!.
   - set (s0 := s <| last_len := None |>) in *.
     assert (HI0 : Inv s0) by (apply (Inv_same s); [by repeat split|done]).
-    destruct (Hs s0 r s1 HI0 eq_refl H) as (HI1&He&(E1&E2&_&E4)&HC).
+    destruct (Hs s0 r s1 HI0 eq_refl H) as (HI1&He&(E1&E2&_&E4&_)&HC).
     split_and!; try done;
       first [ apply (Inv_same s1); [by repeat split|done]
             | intros L HL; apply (Counts_same s1); [done..|]; apply HC; by apply (Counts_same s) ].
@@ -559,7 +589,7 @@ Proof.
   - (* OUndeclare *)
     apply bind_ret_inv in H as (r0&H&Hr).
     destruct (undeclare_spec s vs r0 s' HI H)
-      as [(_&->&->)|(_&rm&->&_&HI'&(_&E1&_&E2)&_&_&_&_&_&_&HC&Hd)].
+      as [(_&->&->)|(_&rm&->&_&HI'&(_&E1&_&E2&_)&_&_&_&_&_&_&HC&Hd)].
     + rewrite Hr. apply safe_dout; first [done | by apply safe_refl].
     + rewrite Hr. apply dout_den; try done; [congruence..|]. exists L. by apply HC.
   - apply (fun Hm => Hq _ Hm H). quiet2; apply quiet_descendants.
@@ -570,7 +600,7 @@ Proof.
   - apply (fun Hm => Hq _ Hm H). quiet2.
   - (* OShutdown *)
     apply bind_ret_inv in H as (r0&H&Hr).
-    destruct (shutdown_total s L r0 s' HI HL Hgd H) as (HI'&HL'&(_&E1&_&E2)&[b ->]&_).
+    destruct (shutdown_total s L r0 s' HI HL Hgd H) as (HI'&HL'&(_&E1&_&E2&_)&[b ->]&_).
     rewrite Hr. split; [split_and!; try done; congruence|]. split; [done|split; [done|]].
     intros L' HC'. by destruct (shutdown_total s L' _ s' HI HC' Hgd H) as (_&_&_&_&?).
   - apply (fun Hm => Hq _ Hm H). quiet2; apply quiet_to_nx.
